@@ -7,7 +7,7 @@ from ..common import Names, rat
 from ..genlog import huntington_hill
 
 PROP = "C14"
-LEAN_MODULE = "VK.Props.C14RunAll"
+LEAN_MODULE = "VK.Check.C14"
 THEOREMS = [
     "VK.C14_pool_total",
     "VK.C14_pool_weights_pos_int",
